@@ -51,6 +51,7 @@ def _count_on_all_paths(body, sites, ends):
 
 
 def check(ctx):
+    lib_mux.canon_roles(ctx.prog, 'libp2p_mdns')
     old = mir.RENDER_MAX[0]
     mir.RENDER_MAX[0] = 40
     try:
@@ -84,7 +85,7 @@ def _encode(ctx):
     ctx.floor("txt", "append_character_string call", acs, 1, exact=True)
     BUF = render(tr.site_expr(acs[0])[2][0])
     ctx.ob("txt", "the escaped string is built from the record's value", render(tr.site_expr(acs[0])[2][1]) == "value", acs[0].loc(), render(tr.site_expr(acs[0])))
-    cont = lib.switch_edges_on_site(tr, acs[0], {"Continue"})
+    cont = lib_mux.ok_edges(tr, acs[0])
     # candidates for the length byte: every `(E as u8)` that is stored into the string buffer (initial element, indexed store, push)
     cands = []
     for bi in sorted(tr.live):
@@ -284,7 +285,7 @@ def _encode(ctx):
         ctx.ob("encode", "every TXT record is owned by the generated peer name", render(e[2][1]) == "<std::vec::Vec as std::ops::Deref>::deref(%s)" % GEN, s.loc(), render(e[2][1])[-80:])
         v = render(e[2][3])
         ctx.ob("encode", "TXT value is `dnsaddr=<addr>/p2p/<peer id>`", "const b\"\\x08dnsaddr=\\xc0\\x05/p2p/\\xc0\\x00\"" in v and re.search(r"new_display\(<[^()]+ as std::iter::Iterator>::next\(\w+\)@Some\.0\)", v) is not None and "new_display(libp2p_core::PeerId::to_base58(peer_id))" in v, s.loc(), v[:200][-120:])
-        okr = lib.switch_edges_on_site(bq, s, {"Ok"})
+        okr = lib_mux.ok_edges(bq, s)
         for p in rpush:
             ctx.ob("encode", "only successfully encoded records are sent", bool(okr) and bq.must_pass_edges(p.bb, okr) and render(bq.site_expr(p)[2][1]) == render(e[2][0]), p.loc(), "records.push(txt_record) on the Ok edge of append_txt_record(&mut txt_record, ..)")
     for s in bq.call_sites(r"iface::dns::query_response_packet$"):
@@ -292,43 +293,85 @@ def _encode(ctx):
         ctx.ob("encode", "the PTR answer points at the same peer name", render(e[2][1]) == "<std::vec::Vec as std::ops::Deref>::deref(%s)" % GEN, s.loc(), render(e[2][1])[-80:])
 
 
-def _child_with(prog, parent, pred, what):
-    hits = [c for c in prog.children(parent) if pred(c)]
+def _stage(prog, parent, pred, what):
+    """The body that performs one stage of the parsing pipeline: the parent fn itself (explicit loop) or one of its
+    adaptor closures (filter_map / flat_map / map ..), whichever satisfies `pred`."""
+    kids = prog.children(parent)
+    cands = [parent] + kids + [g for k in kids for g in prog.children(k)]
+    hits = [c for c in cands if pred(c)]
     if len(hits) != 1:
-        raise mir.RuleError("%s: expected one closure of %s, found %d" % (what, parent.short, len(hits)))
+        raise mir.RuleError("%s: expected one body in %s (fn or closure) doing it, found %d" % (what, parent.short, len(hits)))
     return hits[0]
+
+
+def _ncaps(body):
+    ix = set()
+    for blk in body.blocks:
+        for st in blk["stmts"]:
+            if st["k"] == "assign":
+                for p_ in (st["p"], st["r"].get("p"), (st["r"].get("o") or {}).get("p") if isinstance(st["r"].get("o"), dict) else None):
+                    for pr in (p_ or {}).get("pr", ()):
+                        if pr.get("k") == "field" and str(pr.get("n", "")).startswith("upvar:"):
+                            ix.add(pr.get("i"))
+        t = blk["term"]
+        for a_ in (t or {}).get("args", ()):
+            for pr in (a_.get("p") or {}).get("pr", ()):
+                if pr.get("k") == "field" and str(pr.get("n", "")).startswith("upvar:"):
+                    ix.add(pr.get("i"))
+    return len(ix)
+
+
+def _canon_stage(body, parent, parent_args, elem, capture):
+    if body is parent:
+        lib_mux.canon_args(body, parent_args)
+    else:
+        lib_mux.canon_args(body, ["env", elem])
+        if _ncaps(body) == 1:
+            lib_mux.canon_upvars(body, [capture])
 
 
 def _decode(ctx):
     prog = ctx.prog
     rnew = ctx.body(MD, r"iface::query::MdnsResponse::new$")
     pnew = ctx.body(MD, r"iface::query::MdnsPeer::new$")
-    # closures are located by what they do, not by their index
-    rn = _child_with(prog, rnew, lambda c: bool(c.call_sites(r"iface::query::MdnsPeer::new$")), "answer filter")
-    lib_mux.canon_args(rn, ["env", "record"])
-    lib_mux.canon_upvars(rn, ["packet"])
+    PNEW_ARGS = ["packet", "record_value", "ttl"]
+    # each stage is located by what it does, in the fn itself (loop form) or in an iterator-adaptor closure
+    rn = _stage(prog, rnew, lambda c: bool(c.call_sites(r"iface::query::MdnsPeer::new$")), "answer filter")
+    _canon_stage(rn, rnew, ["packet", "from"], "record", "packet")
     mp = rn.call_sites(r"iface::query::MdnsPeer::new$")
     ctx.floor("decode", "MdnsPeer::new call", mp, 1, exact=True)
+    ptr = [bi for bi in sorted(rn.live) for info in [rn.switch_info(bi)] if info and any("PTR" in ls for ls in info[1].values()) and render(info[0]).endswith(".data)")]
+    REC = render(rn.switch_info(ptr[0])[0])[len("discr("):-len(".data)")] if ptr else "record"
     for s in mp:
-        _, ne_ = lib_mux.eq_edges(rn, lambda t: t.endswith("to_string(record.name)") or t == "record.name", lambda t: t == "const:libp2p_mdns::SERVICE_NAME_FQDN")
-        eq_, _ = lib_mux.eq_edges(rn, lambda t: t.endswith("to_string(record.name)") or t == "record.name", lambda t: t == "const:libp2p_mdns::SERVICE_NAME_FQDN")
+        eq_, _ = lib_mux.eq_edges(rn, lambda t: t.endswith("to_string(%s.name)" % REC) or t == REC + ".name", lambda t: t == "const:libp2p_mdns::SERVICE_NAME_FQDN")
         ctx.ob("decode", "only answers for the libp2p service name are followed", bool(eq_) and rn.must_pass_edges(s.bb, eq_), s.loc(), "record.name == SERVICE_NAME_FQDN")
-        ctx.guarded("decode", "only PTR answers are followed", s, lambda c, r, l: l == "PTR" and r == "discr(record.data)", "record.data is PTR")
+        ctx.guarded("decode", "only PTR answers are followed", s, lambda c, r, l: l == "PTR" and r == "discr(%s.data)" % REC, "record.data is PTR")
         e = rn.site_expr(s)
-        ctx.ob("decode", "the peer is looked up under the PTR target, in the same packet", render(e[2][0]) in ("^*packet", "^packet") and "record.data@PTR.0" in render(e[2][1]), s.loc(), render(e)[-120:])
+        ctx.ob("decode", "the peer is looked up under the PTR target, in the same packet", render(e[2][0]) in ("^*packet", "^packet", "packet") and (REC + ".data@PTR.0") in render(e[2][1]), s.loc(), render(e)[-120:])
     sf, sn = prog.const(MD, r"^libp2p_mdns::SERVICE_NAME_FQDN$").get("s"), prog.const(MD, r"^libp2p_mdns::SERVICE_NAME$").get("s")
     ctx.ob("decode", "the decoded service name is the encoded one, fully qualified", isinstance(sf, str) and sf == (sn or "") + ".", msg="%r vs %r" % (sf, sn))
-    c0 = _child_with(prog, pnew, lambda c: any("TXT" in ls for bi in c.live for info in [c.switch_info(bi)] if info for ls in info[1].values()), "additional-record filter")
-    lib_mux.canon_args(c0, ["env", "add_record"])
-    lib_mux.canon_upvars(c0, ["record_value"])
-    for s in c0.agg_sites(r"^std::option::Option$", "Some"):
-        eq_, _ = lib_mux.eq_edges(c0, lambda t: t == "add_record.name", lambda t: t in ("^record_value", "^*record_value"))
+    c0 = _stage(prog, pnew, lambda c: any("TXT" in ls and render(info[0]).endswith(".data)") for bi in c.live for info in [c.switch_info(bi)] if info for ls in info[1].values()), "additional-record filter")
+    _canon_stage(c0, pnew, PNEW_ARGS, "add_record", "record_value")
+    txt = [bi for bi in sorted(c0.live) for info in [c0.switch_info(bi)] if info and any("TXT" in ls for ls in info[1].values()) and render(info[0]).endswith(".data)")]
+    ADD = render(c0.switch_info(txt[0])[0])[len("discr("):-len(".data)")]
+    TGT = ("^record_value", "^*record_value", "record_value")
+    eq_, _ = lib_mux.eq_edges(c0, lambda t: t == ADD + ".name", lambda t: t in TGT)
+    txt_edges = {(txt[0], t) for t, ls in c0.switch_info(txt[0])[1].items() if ls == {"TXT"}}
+    # every use of the TXT payload (`X.data@TXT.0`) sits behind both tests
+    uses = [s for s in c0.stmt_sites(lambda st: st["k"] == "assign") if (ADD + ".data@TXT.0") in render(c0.site_expr(s))] + \
+           [s for s in c0.call_sites() if (ADD + ".data@TXT.0") in render(c0.site_expr(s))]
+    ctx.floor("decode", "uses of a TXT additional", uses, 1)
+    for s in uses[:2]:
         ctx.ob("decode", "only additionals owned by the PTR target are read", bool(eq_) and c0.must_pass_edges(s.bb, eq_), s.loc(), "add_record.name == record_value")
-        ctx.guarded("decode", "only TXT additionals are read", s, lambda c, r, l: l == "TXT" and r == "discr(add_record.data)", "add_record.data is TXT")
-    c2 = _child_with(prog, pnew, lambda c: bool(c.call_sites(r"iface::dns::decode_character_string$")), "TXT string decoder")
-    lib_mux.canon_args(c2, ["env", "txt"])
-    lib_mux.canon_upvars(c2, ["my_peer_id"])
-    somes = c2.agg_sites(r"^std::option::Option$", "Some")
+        ctx.ob("decode", "only TXT additionals are read", bool(txt_edges) and c0.must_pass_edges(s.bb, txt_edges), s.loc(), "add_record.data is TXT")
+    c2 = _stage(prog, pnew, lambda c: bool(c.call_sites(r"iface::dns::decode_character_string$")), "TXT string decoder")
+    _canon_stage(c2, pnew, PNEW_ARGS, "txt", "my_peer_id")
+    pops = c2.call_sites(r"Multiaddr::pop$")
+    ADDR = render(c2.site_expr(pops[0])[2][0]) if len(pops) == 1 else "addr"
+    POP = render(c2.site_expr(pops[0])) if len(pops) == 1 else "?"
+    # an address is "kept" where it is yielded (closure: Some(addr)) or stored (loop: addrs.push(addr))
+    somes = [s for s in c2.agg_sites(r"^std::option::Option$", "Some") if render(c2.site_expr(s)) == "std::option::Option::Some{0: %s}" % ADDR] + \
+            [s for s in c2.call_sites(r"Vec::push$") if render(c2.site_expr(s)[2][1]) == ADDR]
     ctx.floor("decode", "accepted address", somes, 1, exact=True)
     sw = [bi for bi in sorted(c2.live) if c2.switch_info(bi) and "core::slice::starts_with(" in render(c2.switch_info(bi)[0])]
     lit = None
@@ -341,31 +384,33 @@ def _decode(ctx):
         m = re.search(r"RangeFrom::RangeFrom\{start: (\d+)\}\)$", render(c2.site_expr(idx[0])))
         off = int(m.group(1)) if m else None
     ctx.ob("decode", "prefix literal, its test and the slice offset agree", lit == "dnsaddr=" and off == len(lit or ""), mir.Site(c2, sw[0]).loc() if sw else _w(c2), "starts_with(%r), slice [%s..]; encoder writes %r" % (lit, off, "dnsaddr="))
-    pops = c2.call_sites(r"Multiaddr::pop$")
-    ADDR = render(c2.site_expr(pops[0])[2][0]) if len(pops) == 1 else "addr"
-    POP = render(c2.site_expr(pops[0])) if len(pops) == 1 else "?"
-    MY = "^my_peer_id"
+    reps = [x for x in c2.call_sites(r"Option::(replace|insert|get_or_insert)$")]
+    MY = render(c2.site_expr(reps[0])[2][0]) if reps else "^my_peer_id"
     for s in somes:
         ctx.guarded("decode", "an address is kept only if it carries the dnsaddr= prefix", s, lambda c, r, l: "core::slice::starts_with(" in r and ((l == "true" and not r.startswith("Not(")) or (l == "false" and r.startswith("Not("))), "addr.starts_with(b\"dnsaddr=\")")
         ctx.guarded("decode", "an address is kept only if its last component is /p2p/<id>", s, lambda c, r, l: l == "P2p" and r == "discr(%s@Some.0)" % POP, "addr.pop() == Some(P2p(_))")
         same, _ = lib_mux.eq_edges(c2, lambda t: t == POP + "@Some.0@P2p.0", lambda t: t == MY + "@Some.0")
         same = same | lib_mux.none_edges(c2, MY)
         ctx.ob("decode", "an address is kept only if its peer id equals the first one seen", bool(same) and c2.must_pass_edges(s.bb, same), s.loc(), "peer_id == *my_peer_id, or my_peer_id was None")
-        rep_ = [x for x in c2.call_sites(r"Option::(replace|insert|get_or_insert)$") if render(c2.site_expr(x)[2][0]) == MY] + \
-               [x for x in c2.stmt_sites(lambda st: st["k"] == "assign" and any(pr.get("k") == "field" and str(pr.get("n", "")).startswith("upvar:") for pr in st["p"].get("pr", ())))]
+        stores = reps + [x for x in c2.stmt_sites(lambda st: st["k"] == "assign" and st["p"].get("pr") and st["r"]["k"] == "agg" and st["r"].get("variant") == "Some") if (POP + "@Some.0@P2p.0") in render(c2.site_expr(x))]
         none_e = lib_mux.none_edges(c2, MY)
-        ctx.ob("decode", "the first id seen is remembered", len(rep_) >= 1 and (POP + "@Some.0@P2p.0") in render(c2.site_expr(rep_[0])) and
-               not (s.bb in c2.reachable([t for _, t in none_e], blocked_nodes=lib.bbs(rep_))), s.loc(), "my_peer_id.replace(peer_id) on the None edge before the address is kept")
-        ctx.ob("decode", "the kept address is the parsed one with /p2p/<id> removed", render(c2.site_expr(s)) == "std::option::Option::Some{0: %s}" % ADDR and bool(pops) and c2.dominates(pops[0].bb, s.bb), s.loc(), render(c2.site_expr(s)))
-    c3 = _child_with(prog, pnew, lambda c: bool(c.agg_sites(r"iface::query::MdnsPeer$")), "MdnsPeer constructor")
+        ctx.ob("decode", "the first id seen is remembered", len(stores) >= 1 and (POP + "@Some.0@P2p.0") in render(c2.site_expr(stores[0])) and
+               not (s.bb in c2.reachable([t for _, t in none_e], blocked_nodes=lib.bbs(stores))), s.loc(), "my_peer_id.replace(peer_id) on the None edge before the address is kept")
+        ctx.ob("decode", "the kept address is the parsed one with /p2p/<id> removed", bool(pops) and c2.dominates(pops[0].bb, s.bb), s.loc(), render(c2.site_expr(s))[-60:])
+    c3 = _stage(prog, pnew, lambda c: bool(c.agg_sites(r"iface::query::MdnsPeer$")), "MdnsPeer constructor")
     aggs = c3.agg_sites(r"iface::query::MdnsPeer$")
     f3 = dict(c3.site_expr(aggs[0])[4]) if len(aggs) == 1 else {}
-    # the id is the closure's parameter (the Some payload of my_peer_id it is mapped over); the addresses are the collected ones
-    mapped = [render(pnew.site_expr(x)[2][0]) for x in pnew.call_sites(r"Option::map$")]
-    addrs_src = lib_mux.upvar_map(prog, pnew, [x for x in mir.walk(pnew.site_expr(pnew.call_sites(r"Option::map$")[0])) if x[0] == "closure"][0])[1] if pnew.call_sites(r"Option::map$") else {}
-    a_name = f3.get("addrs", ("unknown", "?"))
-    ok3 = f3.get("peer_id", ("unknown",))[0] == "arg" and f3["peer_id"][1] == 2 and a_name[0] == "upvar" and "Iterator::collect(" in render(addrs_src.get(a_name[1].lstrip("*"), ("unknown", "?"))) and len(mapped) == 1
-    ctx.ob("decode", "the reported peer is that id with the collected addresses", ok3, _w(c3), render(c3.site_expr(aggs[0])) if aggs else "?")
+    pid, adr = f3.get("peer_id", ("unknown", "?")), f3.get("addrs", ("unknown", "?"))
+    if c3 is not pnew:
+        # `my_peer_id.map(|peer_id| MdnsPeer { addrs, peer_id, ttl })`: id = the closure's parameter, mapped over the remembered id
+        maps = pnew.call_sites(r"Option::(map|and_then)$")
+        ups = lib_mux.upvar_map(prog, pnew, [x for x in mir.walk(pnew.site_expr(maps[0])) if x[0] == "closure"][0])[1] if maps else {}
+        src = render(ups.get(adr[1].lstrip("*"), ("unknown", "?"))) if adr[0] == "upvar" else "?"
+        ok3 = pid[0] == "arg" and pid[1] == 2 and len(maps) == 1 and ("Iterator::collect(" in src or src == "addrs")
+    else:
+        # explicit `match my_peer_id { Some(peer_id) => Some(MdnsPeer { .. }), None => None }`
+        ok3 = render(pid).endswith("@Some.0") and adr[0] in ("local", "call")
+    ctx.ob("decode", "the reported peer is that id with the collected addresses", ok3, _w(c3), render(c3.site_expr(aggs[0]))[-140:] if aggs else "?")
 
     # ------------------------------------------------------------------ no panic while parsing
     dc = lib_mux.canon_args(ctx.body(MD, r"iface::dns::decode_character_string$"), ["from"])
